@@ -63,4 +63,17 @@ PROPS = {
         "level_text": "Exploration by generated histories. After every repository synchronisation the products of each class directory must carry a single issuing key that also publishes a manifest there; at checkpoints the products are under the current key, payloads equal the configuration and the tree is RP-valid; every call is wrapped so a panic or would-be process exit is attributed to the operation; at the end every open roll must finish in the single-active-key state after activation and synchronisation. Interleavings are sampled, not enumerated.",
         "level_note": "Trusted base: rpki decoding, the pump, the intent model. Commands krill refuses during a roll are accepted as refusals. Rolls of a CA whose parent relation was removed on purpose are not required to finish.",
     },
+    "C14": {
+        "level": "exploration",
+        "cases": {"quick": 1200, "thorough": 24000},
+        "rule": "cases = generated (timing configuration, hierarchy, history) triples; timing is drawn around the limits krill's own configuration check accepts "
+        "(ASPA/BGPsec margins may equal or exceed lifetimes); every clock advance in a history is a maintenance experiment: the state is settled and decoded at T0, "
+        "the clock jumps to T (amounts biased to land just before / inside / after the configured margins), the republish and renew runs are executed and the "
+        "repository is decoded again; distinct by hash of the case JSON; non-trivial iff some experiment had at least one key set due and at least one not due, or ran while a key roll was in progress",
+        "floors": {"__nontrivial__": 0.20, "run_with_due_set": 0.30, "run_with_nothing_due": 0.03, "run_during_roll": 0.05},
+        "assumptions": W_ASSUME + ["'due' is computed from the decoded next-update / not-after values (krill adds random jitter to next-update)", "the embedded trust anchor's own manifest is only refreshed by signer exchanges; histories stay below its next-update time and its key is exempt from the 'due' clauses"],
+        "technique": "property-based testing with a virtual clock: before/after comparison of decoded manifest and CRL numbers, validity windows and payload sets around each maintenance run (metamorphic: a pure re-issue changes numbers by exactly one and nothing else)",
+        "level_text": "Exploration by generated timing configurations and histories. For every maintenance run: each key set that was due is re-issued exactly once (manifest number +1, equal to the CRL number), sets that were not due are untouched, nothing due means byte-identical repository, signed objects inside their re-issue margin are renewed, all windows contain the present (RP walk), numbers never decrease over the whole history, and the payload sets are unchanged. Sampling, not proof.",
+        "level_note": "Trusted base: rpki decoding, the virtual clock, the pump. For steps in which commands were recorded for a CA the number increment is only bounded (at most commands+1), as several commands can re-issue within one task.",
+    },
 }
